@@ -9,9 +9,8 @@ IDX = {}
 KANI_ONLY = {"c06_new_wiring", "c19_async_new_wiring", "c10_wait_barrier", "c10_wait_vs_clear", "c10_wait_inflight",
              "c13_tinylfu_new", "c07_add_rule_n2", "c07_add_rule_n3", "c17_add_metrics_n2", "c17_add_metrics_n3",
              "c19_async_client_remove_wiring", "c19_async_get_records",
-             # the "recorded toward popularity" assertion reads the recorder that replaces LFUPolicy::push
-             # (whose select! Kani cannot compile); natively there is no recorder to read
-             "c15_get_records",
+             # natively the real close() blocks on the rendezvous stop channel until a worker takes the signal
+             "c12_close_seq",
              }
 
 
@@ -128,7 +127,7 @@ H("C02", "c02_store_lookup", "store", STF, SB + "; entries without TTL; get, get
 P("C04", [LOCKS, CLOCK])
 TTLB = "; resident and new entries with or without TTL (creation instants within 4 s before an arbitrary now, TTLs <= 4 s + arbitrary nanoseconds)"
 H("C04", "c04_em_store_insert", "store", STF, SB + TTLB, timeout=3600, cover_tags=["insert"], tier="thorough", mem_gb=28)
-H("C04", "c04_em_store_update", "store", STF, SB + TTLB, timeout=3600, cover_tags=["update"], tier="thorough", mem_gb=28)
+H("C04", "c04_em_store_update", "store", STF, SB + TTLB, timeout=3600, cover_tags=["update"], cover_optional=["update vetoed"], tier="thorough", mem_gb=28)
 H("C04", "c04_em_store_remove", "store", STF, SB + TTLB, timeout=3600, cover_tags=["remove"], tier="thorough", mem_gb=28)
 H("C04", "c04_store_update_ttl", "store", STF, SB + TTLB + "; addressed entry may be expired but not yet swept; expiry index not built", timeout=1200, cover_tags=["update"], cover_optional=["update vetoed"])
 H("C04", "c04_store_insert_ttl", "store", STF, SB + TTLB + "; addressed entry may be expired but not yet swept; expiry index not built", timeout=1200, cover_tags=["insert"])
@@ -214,6 +213,11 @@ H("C20", "c20_builder_core_setters", "cache::builder", BSET, "one setter call (a
 H("C20", "c20_builder_wrapper_setters", "cache::sync", ["CacheBuilder::" + x.split("::")[-1] for x in BSET], "one setter call of the public (sync) CacheBuilder from an arbitrary builder state; AsyncCacheBuilder is the same macro text (impl_builder!) and is not instantiated", timeout=600)
 H("C20", "c20_closed_is_inert", "cache::sync", ["Cache::get", "Cache::get_mut", "Cache::try_remove", "Cache::clear", "Cache::wait", "Cache::close"], "arbitrary quiescent state with <= 2 residents, closed flag set, arbitrary key", timeout=1800)
 H("C20", "c20_sketch_new_widths", "sketch", ["CountMinSketch::new", "CountMinSketch::increment", "CountMinSketch::estimate"], "num_counters symbolic in [1, 65536] (includes 1..70, powers of two or not)", timeout=900, alias_of="c13_sketch_new_widths")
+# ---- C12 (sequential slice only)
+P("C12", CACHE_ASS + ["crossbeam's blocking Sender::send on the rendezvous stop channels is replaced by the FIFO contract accepting the message (= the worker took it); zero-sized messages (clear / stop signals) are counted",
+                      "NOT decided: concurrent close() calls, operations racing a close, deadlock freedom on the rendezvous channels, that the two workers terminate (after close() or when every handle is dropped): threads / tasks cannot be executed by Kani"])
+H("C12", "c12_close_seq", "cache::sync", ["Cache::close", "Cache::clear", "LFUPolicy::close", "Cache::get", "Cache::get_mut", "Cache::try_remove", "Cache::wait"], "arbitrary quiescent state with <= 2 residents; the real close(), a second close(), then get / get_mut / remove / clear / wait with an arbitrary key", timeout=1800)
+H("C12", "c12_closed_is_inert", "cache::sync", ["Cache::get", "Cache::get_mut", "Cache::try_remove", "Cache::clear", "Cache::wait", "Cache::close"], "arbitrary quiescent state with <= 2 residents, closed flag set, arbitrary key", timeout=1800, alias_of="c20_closed_is_inert")
 # ---- C10
 P("C10", CACHE_ASS + ["wg::WaitGroup::wait (Condvar parking) is replaced by: run the parked processor to quiescence, then assert the WaitGroup counter is zero - on one thread 'counter still positive' IS 'blocks forever'; WaitGroup::new/add/done/waitings run as real code", "NOT decided: races of wait() with close(), barrier semantics for other threads' calls, real wake-ups (DESIGN 8)"])
 WF = ["Cache::wait", "Cache::try_update", "Cache::try_remove", "Cache::clear", "CacheProcessor::handle_item(Wait)", "CacheCleaner::handle_item(Wait)", "wg::WaitGroup::new/add/done/waitings"]
@@ -299,6 +303,9 @@ H("C19", "c19_async_get_records", "cache::r#async", ACF + ["AsyncRingStripe::pus
 H("C15", "c15_async_get_records", "cache::r#async", ACF + ["AsyncRingStripe::push (ring full)", "AsyncLFUPolicy::push"], GRB, timeout=2400, alias_of="c19_async_get_records", **AKW)
 H("C17", "c17_async_get_records", "cache::r#async", ACF + ["AsyncRingStripe::push (ring full)", "AsyncLFUPolicy::push"], GRB + "; gets_kept / gets_dropped accounting of the async flavour", timeout=2400, alias_of="c19_async_get_records", **AKW)
 IDX["C15"]["assumptions"] += [MREC, ARCD, "async flavour: async_channel::Sender::try_send replaced by a FIFO contract, one poll with a no-op waker, futures select! shuffle replaced by the identity (see C19)"]
+H("C12", "c12_async_insert_closed", "cache::r#async", ACF, ACB + "; closed flag set or not: insert on a closed AsyncCache returns false and has no effect", timeout=2400, alias_of="c19_async_client_insert_send", **AKW)
+H("C12", "c12_async_lookup_closed", "cache::r#async", ACF, ACB + "; closed flag set or not: get / get_mut on a closed AsyncCache return nothing", timeout=2400, alias_of="c19_async_client_lookup", **AKW)
+H("C12", "c12_async_clear_closed", "cache::r#async", ACF, ACB + "; closed flag set or not: clear on a closed AsyncCache has no effect", timeout=1800, alias_of="c19_async_client_clear", **AKW)
 H("C09", "c09_async_client_insert", "cache::r#async", ACF, ACB + "; insert_if_present / vetoed updates through the async flavour's own copy of try_update", timeout=1800, alias_of="c19_async_client_insert", **AKW)
 IDX["C09"]["assumptions"] += [MREC, ARCD]
 
